@@ -137,7 +137,16 @@ pub fn gen_file(rng: &mut Rng, hash: MerkleHash, cas: &[&MDBCASInfo], flags: (bo
     };
     let mut segments = Vec::new();
     let mut verification = Vec::new();
+    // one file in twenty is larger than 4 GiB: 70..110 segments of 48..64 MiB (whole-xorb segments of a real large file),
+    // so that per-file and per-shard byte totals exceed u32
+    let huge = n_seg > 1 && rng.chance(1, 20);
+    let n_seg = if huge { rng.urange(70, 110) } else { n_seg };
     for _ in 0..n_seg {
+        if huge {
+            let sz = rng.range(48 << 20, 64 << 20) as u32;
+            segments.push(FileDataSequenceEntry::new(rand_hash(rng), sz, 0u32, rng.range(500, 1024) as u32));
+            continue;
+        }
         if !cas.is_empty() && rng.chance(4, 5) {
             let c = *rng.pick(cas);
             let n = c.chunks.len();
